@@ -54,3 +54,15 @@ Example C11_kill_inside_checkpoint_refuted :
   exc (cl_st ex_uninterrupted) = false /\ is_Some (l_live (cl_st ex_uninterrupted) !! (1%N, 5%Z)) /\
   exc (cl_st ex_recovered) = true /\ l_live (cl_st ex_recovered) !! (1%N, 5%Z) = None.
 Proof. vm_compute. repeat split; eauto. Qed.
+
+(** ** tie to the source text (Generated/Facts.v): the order of the checkpoint files in the model is
+    the order of the calls in the [finally] block of [GenericClient.mainLoop],
+    [Datamodel.saveLocalAndRemoteData] and [Datasource.save] now; the offset file comes last *)
+From Hermes Require Import Proofs.FactsTieCheckpoint.
+Theorem C11_checkpoint_order_is_the_source_s : forall types, save_order_facts types = save_order types.
+Proof. exact checkpoint_order_tie. Qed.
+Print Assumptions C11_checkpoint_order_is_the_source_s.
+Theorem C11_source_saves_offset_last : forall types,
+  exists l, save_order_facts types = l ++ [FOffset] /\ ~ In FOffset l.
+Proof. exact offset_saved_last_tie. Qed.
+Print Assumptions C11_source_saves_offset_last.
